@@ -24,7 +24,7 @@ import numpy as np
 
 from .. import datagen, estimators, world
 from ..driver import clone, seeds_for
-from ..util import digest, digest_bytes
+from ..util import digest, digest_bytes, exc_is_domain
 from ..worlds import pipeline as P
 
 PROPERTY = "C08"
@@ -195,6 +195,9 @@ def run_scenario(scn, workdir):
     d0 = _digests(base)
     out["digest"] = digest([scn["data"], scn["cfg"], scn["knobs"], scn["format"], scn["hash_seed"]])
     if "error" in d0:
+        if not exc_is_domain(base.exc):
+            return viol("run_failed", f"base run fails with an error that is not a data-domain error: {base.error}",
+                        **base.err_sig())
         out.update(status="uninformative", message=f"base run fails: {base.error}"[:160])
         return out
     probes["protein_level"] = int(any(k.endswith(".proteins") for k in d0))
